@@ -30,11 +30,10 @@ namespace tbox {
 namespace alarm {
 
 WorkdayAlarm::~WorkdayAlarm() {
-  //! ~Alarm() 中的 cleanup() 已无法调到本类的 onDisable()，必须在这里退订，
-  //! 否则日历的 watch_alarms_ 中会留下悬空指针
+  //! ~Alarm() 中的 cleanup() 已无法调到本类的 onDisable()，必须在这里执行，
+  //! 否则日历的 watch_alarms_ 中会留下悬空指针。
+  //! 只有已启动的定时器才订阅着日历；未启动的定时器析构时不能再碰日历（它可能已经先被销毁）
   cleanup();
-  if (wp_calendar_ != nullptr)
-    wp_calendar_->unsubscribe(this);  //! enable() 失败时订阅也会留下
 }
 
 bool WorkdayAlarm::initialize(int seconds_of_day, WorkdayCalendar *wp_calendar, bool workday) {
